@@ -115,6 +115,15 @@ pub fn sweep(which: Which) -> Tally {
                                         if e.is_some() {
                                             t.nontrivial += 1;
                                         }
+                                        if let Ok(im) = engine::is_match(&re, &text) {
+                                            if im != e.is_some() {
+                                                t.violation(
+                                                    pattern.len() * 8 + text.len(),
+                                                    jobj! {"kind" => "casefold", "pattern" => pattern.as_str(), "text" => text.as_str(), "pos" => 0usize, "observed" => format!("Ok({})", im),
+                                                    "summary" => format!("/{}/ on {:?}: is_match = {}, the regex crate finds {:?}", pattern, text, im, e)},
+                                                );
+                                            }
+                                        }
                                         if g.span() != e && !matches!(g, Out::Err(_) | Out::Panic(_)) {
                                             t.violation(
                                                 pattern.len() * 8 + text.len(),
@@ -132,6 +141,7 @@ pub fn sweep(which: Which) -> Tally {
                                 (format!("(?i){}x", sp), format!("(?i){}(?=)x", sp)),
                                 (format!("(?i:{})", sp), format!("(?=)(?i:{})", sp)),
                                 (format!("(?i)[{}]x", sp), format!("(?i)[{}](?=)x", sp)),
+                                (format!("(?i){}", sp), format!("(?i){}(?!\\x{{0}})", sp)),
                             ] {
                                 pair(&mut t, &plain, None, &forced, orbit, c);
                             }
@@ -184,6 +194,18 @@ fn pair(t: &mut Tally, a: &str, builder_on: Option<&str>, b: &str, orbit: &[char
             }
             if matches!(x, Out::Err(_) | Out::Panic(_)) || matches!(y, Out::Err(_) | Out::Panic(_)) {
                 continue;
+            }
+            // is_match has its own early exits: it must agree with the search on both sides
+            for (r, out, pat) in [(&ra, &x, a), (&rb, &y, b)] {
+                if let Ok(im) = engine::is_match(r, &text) {
+                    if im != matches!(out, Out::Match(_)) {
+                        t.violation(
+                            pat.len() * 8 + text.len(),
+                            jobj! {"kind" => "casefold", "pattern" => pat, "text" => text.as_str(), "pos" => 0usize, "observed" => format!("Ok({})", im),
+                            "summary" => format!("/{}/{} on {:?}: is_match = {} but captures = {} (U+{:04X} against U+{:04X})", pat, if builder_on.is_some() && std::ptr::eq(r, &rb) { " built with case_insensitive(true)" } else { "" }, text, im, out.short(), c as u32, d as u32)},
+                        );
+                    }
+                }
             }
             if x != y {
                 t.violation(
